@@ -67,6 +67,13 @@ class System:
         self.snap_path = os.path.join(repo_root(), "tests", "snapshots", snap)
         self.peer = SpaPeer(world.loop, world.net, self.snap_path, cls=model_spa_class() if model else None, ip=spa_ip or SPA_IP)
         world.peers.append(self.peer)
+        rem = world.cfg.get("peer_reminders")
+        if rem is not None and model:
+            # peer data: which reminders the spa reports ("none" = every slot invalid: a spa on which no reminder is in use)
+            from geckolib import GeckoReminderType
+
+            self.peer.sim.reminders_override = [(GeckoReminderType.INVALID, -13)] * 10 if rem == "none" else [(GeckoReminderType.CLEAN_FILTER, 3)] + [(GeckoReminderType.INVALID, -13)] * 9
+            world.result.probe("spa_reports_" + rem + "_reminders")
         fw = world.cfg.get("firmware")
         if fw:
             # peer-supplied data: the in.touch2 firmware versions reported in the handshake (every shipped snapshot says EN v14/v15)
